@@ -1,6 +1,6 @@
 (* C20 - Migration copies every key, value and reference count. *)
 From Coq Require Import NArith List Bool Lia.
-From PDB Require Import Model.Pipeline Model.IndexPage Model.Migrate Proofs.MigrateProofs Proofs.IndexEntryProofs.
+From PDB Require Import Model.Pipeline Model.IndexPage Model.Migrate Model.MigrateDriver Proofs.MigrateProofs Proofs.MigrateDriverProofs Proofs.IndexEntryProofs.
 Import ListNotations.
 Open Scope N_scope.
 
@@ -38,5 +38,73 @@ Example C20_nonvacuous :
   migrate_col {| c_btree := false; c_rc := true; c_preimage := true |} 0 src 9 = None.
 Proof. cbn [keys_distinct]. split; [split; [intros e [<-|[]]; discriminate|split; [intros e []|exact I]]|]. vm_compute. repeat split; reflexivity. Qed.
 
+(* ---- the whole call: [migrate from to overwrite force_migrate] (Model/MigrateDriver.v) ----
+   Columns are re-populated when forced or when their options differ, copied as files otherwise; ONE change
+   set is filled across columns and committed whenever it holds [n] operations (COMMIT_SIZE), the remainder
+   at the end. For EVERY batch size n (0 = never full), every number of columns, every selection:
+
+   without overwrite the source is unchanged and the destination holds, in every selected column, exactly the
+   source's keys with their values and counts ([migrated_col] = the right-hand side of C20_content_preserved),
+   in every other column of the call the source's column, and nothing elsewhere. *)
+Theorem C20_whole_call_without_overwrite :
+  forall (n : nat) (cols : list mcol) (srcs : list scontent) (S S' D' : db), all_distinct srcs ->
+  migrate_driver n cols (length cols) false srcs S = MgOk S' D' ->
+  S' = S /\ forall c k, D' c k = spec_db 0 cols srcs S empty_db c k.
+Proof. exact driver_copy_mode. Qed.
+
+(* with in-place overwrite the SOURCE directory ends up with the same content (selected columns re-populated
+   under the new options, the others untouched, columns outside the call untouched) and the scratch
+   destination is left empty *)
+Theorem C20_whole_call_with_overwrite :
+  forall (n : nat) (cols : list mcol) (srcs : list scontent) (S S' D' : db), all_distinct srcs ->
+  migrate_driver n cols (length cols) true srcs S = MgOk S' D' ->
+  forall c k, S' c k = spec_db 0 cols srcs S S c k /\ D' c k = None.
+Proof. exact driver_overwrite_mode. Qed.
+
+(* [spec_db] read column by column *)
+Theorem C20_result_column_by_column : forall cols c0 srcs S base c,
+  spec_db c0 cols srcs S base c =
+  if (c0 <=? c) && (c <? c0 + N.of_nat (length cols)) then
+    let i := N.to_nat (c - c0) in
+    if selected (nth i cols {| m_sf := 0; m_df := 0; m_force := false |}) then
+      migrated_col (nth i cols {| m_sf := 0; m_df := 0; m_force := false |}) (nth i srcs [])
+    else S c
+  else base c.
+Proof. exact spec_db_nth. Qed.
+
+(* where the change set is cut makes no difference: committing the batches and then the remainder leaves every
+   column as one commit of everything would *)
+Theorem C20_batch_boundaries_are_invisible :
+  forall cfgs n ops cur bs r D c, batches_of n cur ops = (bs, r) ->
+  apply_db cfgs r (apply_batches cfgs bs D) c = apply_db cfgs (cur ++ ops) D c.
+Proof. exact batches_are_one_commit. Qed.
+
+(* the call is refused exactly when the column counts differ or a selected column is (or is to become) a btree
+   column; a refused call yields no database at all *)
+Theorem C20_refused_iff :
+  forall n cols ndst ow srcs S,
+  (exists e, migrate_driver n cols ndst ow srcs S = MgErr e) <->
+  (length cols <> ndst \/ exists m, In m cols /\ selected m = true /\ has_btree m = true).
+Proof. exact driver_rejects_iff. Qed.
+
+(* Non-vacuity of the driver theorems: three columns (changed, unchanged, forced), batch size 2 so that a change
+   set is cut inside an entry's repeated Sets and carried across columns; both modes succeed. *)
+Example C20_driver_nonvacuous :
+  let cols := [ {| m_sf := 2; m_df := 0; m_force := false |}; {| m_sf := 1; m_df := 1; m_force := false |};
+                {| m_sf := 2; m_df := 2; m_force := true |} ] in
+  let srcs : list scontent := [[(5, (77, 3)); (6, (88, 1))]; [(1, (11, 1))]; [(9, (99, 2))]] in
+  match migrate_driver 2 cols 3 false srcs (src_db srcs), migrate_driver 2 cols 3 true srcs (src_db srcs) with
+  | MgOk _ D, MgOk S' _ =>
+      D 0 5 = Some (77, 1) /\ D 1 1 = Some (11, 1) /\ D 2 9 = Some (99, 2) /\ D 0 7 = None /\
+      S' 0 5 = Some (77, 1) /\ S' 1 1 = Some (11, 1) /\ S' 2 9 = Some (99, 2)
+  | _, _ => False
+  end.
+Proof. vm_compute. repeat split; reflexivity. Qed.
+
 Print Assumptions C20_content_preserved.
+Print Assumptions C20_whole_call_without_overwrite.
+Print Assumptions C20_whole_call_with_overwrite.
+Print Assumptions C20_result_column_by_column.
+Print Assumptions C20_batch_boundaries_are_invisible.
+Print Assumptions C20_refused_iff.
 Print Assumptions C20_key_recovered.
